@@ -696,7 +696,7 @@ class Interp:
             return pl[1]
         if k == "field" and self._upvar_refs and pl[1] == self._env_place and pl[2] in self._upvar_refs:
             return ("upvar", pl[2])  # a captured reference never changes during the closure's execution
-        if place_is_local(pl):
+        if place_is_local(pl) or place_root(pl)[0] == "constval":
             base = self.read_pl(st, pl[1])
             if k == "field":
                 return mk_proj(base, pl[2])
@@ -1029,8 +1029,12 @@ class Interp:
             if callee is None:
                 prog = getattr(self.body.crate, "program", None)
                 callee = prog.by_key.get(tdef) if prog is not None else None
-            if callee is not None and not any(mentions(a, lambda s_: s_[0] == "local") for a in args) and len(self.uid_prefix) < 3:
-                return self._inline(st, t, bb, callee, args, ev)
+            if callee is not None and len(self.uid_prefix) < 3:
+                # a shared reference to a caller local is passed as a reference to its current value
+                # (the callee cannot write through it); &mut references to caller locals are not inlined
+                iargs = tuple(self._ref_values(st, a) if (argtys0[i] if i < len(argtys0) else "").startswith("&") and not (argtys0[i] if i < len(argtys0) else "").startswith("&mut") else a for i, a in enumerate(args))
+                if not any(mentions(a, lambda s_: s_[0] == "local") for a in iargs):
+                    return self._inline(st, t, bb, callee, iargs, ev)
         if not pure:
             # memory and by-&mut locals may change
             argtys = [effects._op_ty(self.body, a) for a in t["args"]]
